@@ -26,7 +26,11 @@ class C16(Prop):
         rows = C.read_jsonl(p)
         if rc != 0 or not rows:
             raise RuntimeError("C16 harness did not run: rc=%s\n%s" % (rc, out[-2000:]))
-        return {"rows": rows}
+        rc, out, p2, dt = C.go_test_overlay(ctx.work, "./utils/tcpbridge/connection/", "TestVerifC16Overlap$", OVERLAY, "C16Overlap.jsonl", ctx.seed, ctx.tier, timeout=1800, extra_env=env)
+        rows2 = C.read_jsonl(p2)
+        if rc != 0 or not rows2:
+            raise RuntimeError("C16 overlap harness did not run: rc=%s\n%s" % (rc, out[-2000:]))
+        return {"rows": rows + rows2}
 
     def oracle(self, ctx, obs):
         res = []
@@ -34,6 +38,20 @@ class C16(Prop):
             if r["kind"] == "open-count":
                 if r["open"] != 0:
                     res.append(("connections-leaked", "%d of %d bridged connections are still open on the TCP server after both ends are gone" % (r["open"], r["scenarios"]), r))
+                continue
+            if r["kind"] == "overlap":
+                rp = {"driver": "TestVerifC16Overlap: several TCP clients at once <-> tcp-bridge-frontend <=ws=> tcp-bridge-backend <-> TCP server", "observed": r}
+                if r.get("err"):
+                    res.append(("bridge-connect-error", r["err"], rp))
+                    continue
+                if not r.get("tag_arrived"):
+                    res.append(("overlap:data-not-delivered", "with %d overlapping connections, the data of connection %d never reached a server connection" % (r["connections"], r["closed_index"]), rp))
+                elif not r.get("peer_saw_eof") or r.get("eof_delay_ms", 10 ** 9) > BOUND_MS:
+                    res.append(("overlap:no-eof-after-client-close", "with %d overlapping connections, closing client %d did not end its server connection within %d ms" % (r["connections"], r["closed_index"], BOUND_MS), rp))
+                elif not r.get("peer_received_all"):
+                    res.append(("overlap:data-lost-before-eof", "the server connection of client %d ended without the bytes sent before the close" % r["closed_index"], rp))
+                if r.get("others_disturbed"):
+                    res.append(("overlap:other-connection-disturbed", "closing client %d ended or cut off %d other bridged connection(s) (%d had their data delivered to another connection)" % (r["closed_index"], r["others_disturbed"], r.get("others_misrouted", 0)), rp))
                 continue
             s = r["scenario"]
             rp = {"driver": "TestVerifC16Close: TCP client <-> tcp-bridge-frontend <=ws=> tcp-bridge-backend <-> TCP server", "scenario": s, "observed": {k: v for k, v in r.items() if k not in ("scenario", "kind")}}
@@ -53,8 +71,9 @@ class C16(Prop):
         return [], len([r for r in obs["rows"] if r["kind"] == "close"]), {"note": "life-cycle model: the observable (EOF at the far end, connection count) is compared by the property oracle"}
 
     def coverage(self, ctx, obs):
-        rows = [r for r in obs["rows"] if r["kind"] == "close"]
         hist = collections.Counter()
+        hist["overlap-closes"] = len([r for r in obs["rows"] if r["kind"] == "overlap"])
+        rows = [r for r in obs["rows"] if r["kind"] == "close"]
         for r in rows:
             s = r["scenario"]
             hist["closer:" + s["closer"]] += 1
